@@ -748,3 +748,35 @@ func Layered(r *rand.Rand, subtypes bool, failP float64) Scenario {
 	fixDelivery(&s, r)
 	return s
 }
+
+// oddNameOf maps the generators' plain value names to names that are legal in
+// a struct tag but are not Go identifiers. Matching only ever compares names
+// as (lower-cased) strings, so a scenario renamed this way has the same
+// model; the library must not derive Go identifiers from them either.
+var oddNameOf = map[string]string{"a": "a-b", "b": "1st", "c": "_x", "d": "x.y z", "dd": "d/d", "e": "é1"}
+
+func oddLabels(ls []Label) []Label {
+	out := make([]Label, len(ls))
+	for i, l := range ls {
+		if o, ok := oddNameOf[l.Name]; ok {
+			l.Name = o
+		}
+		out[i] = l
+	}
+	return out
+}
+
+// oddNames returns s with every value name replaced through oddNameOf.
+func oddNames(s Scenario) Scenario {
+	t := s
+	t.Inputs = oddLabels(s.Inputs)
+	t.Target.In = oddLabels(s.Target.In)
+	t.Target.Out = oddLabels(s.Target.Out)
+	t.Convs = make([]FuncSpec, len(s.Convs))
+	for i, c := range s.Convs {
+		c.In = oddLabels(c.In)
+		c.Out = oddLabels(c.Out)
+		t.Convs[i] = c
+	}
+	return t
+}
